@@ -133,6 +133,17 @@ Example c13_config_example :
   members_of 4 (config_ops 4 4 [0; 4; 2]%nat) = [(2, 2); (1, 4); (0, 0)]%nat.
 Proof. vm_compute. reflexivity. Qed.
 
+(* kv multi-key Del: with every key stored on its owner shard, one Del(keys...) leaves none of the named keys on
+   any shard (whatever the owners of adjacent keys are) and touches no other key *)
+Theorem c13_multidel_removes_all : forall owner ks st, (forall k n, In k (st n) -> n = owner k) ->
+  forall k, In k ks -> forall n, ~ In k (kv_del owner ks st n).
+Proof. exact kv_del_all. Qed.
+Print Assumptions c13_multidel_removes_all.
+
+Theorem c13_multidel_keeps_others : forall owner ks st n x, ~ In x ks -> In x (st n) -> In x (kv_del owner ks st n).
+Proof. exact kv_del_keeps. Qed.
+Print Assumptions c13_multidel_keeps_others.
+
 Require Coq.Strings.String.
 Import Coq.Strings.String.StringSyntax.
 Local Open Scope string_scope.
